@@ -82,6 +82,7 @@ func c05Witnesses() []c05Witness {
 		c05Witness{"copysheet-then-delformctl", []string{"h.new", "h.link " + s1 + " D8 " + hx("http://x/<y>") + " 0", "h.newsheet " + s2, "h.formctl " + s2 + " D2 5 " + hx("txt"), "h.copysheet 1 0", "h.delformctl " + s1 + " D2", "h.save"}},
 		c05Witness{"last-sheet-delete", []string{"h.open Book1.xlsx", "h.delsheet " + s2, "h.chartsheet " + hx("Chart1") + " " + s1 + " 4", "h.delsheet " + s1, "h.save", "h.reopen", "h.delsheet " + hx("Chart1"), "h.save"}},
 		c05Witness{"stream-then-deletesheet", []string{"h.new", "h.link " + s1 + " D16 " + hx("mailto:a@b.c") + " 0", "h.newsheet " + hx("Stream1"), "h.stream.new " + s1, "h.delsheet " + s1, "h.save"}},
+		c05Witness{"formctl-badcell-delcomment", []string{"h.new", "h.formctl " + s1 + " XFE1 0 " + hx("m"), "h.delcomment " + s1 + " B15", "h.save"}},
 		c05Witness{"vba-write", []string{"h.new", "h.vba", "h.save"}},
 		c05Witness{"rename-duplicate", []string{"h.new", "h.newsheet " + s2, "h.rensheet " + s1 + " " + s2, "h.save"}},
 		c05Witness{"dv-markup", []string{"h.new", "h.dv " + s1 + " " + hx("A1:A3") + " 4 1 " + hx("AND(A1<5,B1>\"&\")"), "h.save"}},
